@@ -24,6 +24,9 @@ struct T {
     st: St,
     failed_epoch: u64,
     is_client: bool,
+    /// diagnostics (AXSIM_BT): where the thread last failed to get what it waits for
+    wait: String,
+    bt: Option<std::backtrace::Backtrace>,
 }
 
 struct Inner {
@@ -54,6 +57,13 @@ struct Inner {
     /// steps consumed per thread since its current call started (bounded liveness)
     call_steps: Vec<u64>,
     max_call_steps: u64,
+    /// lock address -> threads waiting to take it exclusively. parking_lot's RwLock sets its writer
+    /// bit as soon as a writer starts to wait, and from then on every new (non-recursive) reader
+    /// waits behind it: a thread that re-takes a read lock it already holds deadlocks with a waiting
+    /// writer. The baton gives the locks the same policy.
+    waiting_writers: std::collections::BTreeMap<usize, std::collections::BTreeSet<usize>>,
+    readers_held_back: u64,
+    recursive_reads_ahead_of_writer: u64,
 }
 
 pub struct Baton {
@@ -74,6 +84,12 @@ impl Baton {
             if i.threads.iter().any(|t| t.is_client && t.st != St::Finished) {
                 i.deadlock = true;
                 i.active = false;
+                if std::env::var("AXSIM_BT").is_ok() {
+                    for (t, th) in i.threads.iter().enumerate() {
+                        eprintln!("DEADLOCK thread {t} client={} finished={}\n{}\n{}", th.is_client, th.st == St::Finished, th.wait, th.bt.as_ref().map(|b| b.to_string()).unwrap_or_default());
+                    }
+                    eprintln!("waiting writers: {:?}", i.waiting_writers);
+                }
             }
             return;
         }
@@ -145,15 +161,48 @@ impl Baton {
     }
 }
 
-impl Scheduler for Baton {
-    fn block_until(&self, site: u32, pred: &dyn Fn() -> bool) {
+impl Baton {
+    /// `behind_writer`: for a recursive shared acquisition, whether it may go ahead of a waiting
+    /// writer right now (parking_lot lets it when the lock is held shared at that moment).
+    fn block_on(&self, site: u32, lock: usize, pred: &dyn Fn() -> bool, behind_writer: Option<&dyn Fn() -> bool>) {
         let me = me();
         if me == usize::MAX {
             return;
         }
+        let exclusive = matches!(site, sched::site::PAGER_WRITE | sched::site::WRITE_LATCH | sched::site::FRAME_BYTES_MUT);
+        let shared = matches!(site, sched::site::PAGER_READ | sched::site::READ_LATCH | sched::site::FRAME_BYTES);
         self.yield_point(site);
         loop {
-            if pred() {
+            let mut ok = pred();
+            if lock != 0 && (exclusive || shared) {
+                let mut g = self.m.lock().unwrap_or_else(|e| e.into_inner());
+                if let Some(i) = g.as_mut() {
+                    if i.active {
+                        if exclusive {
+                            if ok {
+                                if let Some(w) = i.waiting_writers.get_mut(&lock) {
+                                    w.remove(&me);
+                                    if w.is_empty() {
+                                        i.waiting_writers.remove(&lock);
+                                    }
+                                }
+                            } else {
+                                i.waiting_writers.entry(lock).or_default().insert(me);
+                            }
+                        } else if ok && i.waiting_writers.get(&lock).is_some_and(|w| w.iter().any(|&t| t != me)) {
+                            // a writer waits for this lock: a new reader queues behind it, unless the
+                            // acquisition is recursive and the lock is held shared right now
+                            if behind_writer.is_some_and(|f| f()) {
+                                i.recursive_reads_ahead_of_writer += 1;
+                            } else {
+                                ok = false;
+                                i.readers_held_back += 1;
+                            }
+                        }
+                    }
+                }
+            }
+            if ok {
                 return;
             }
             {
@@ -165,6 +214,10 @@ impl Scheduler for Baton {
                 i.steps += 1;
                 i.failed_polls += 1;
                 i.threads[me].failed_epoch = i.epoch;
+                if std::env::var("AXSIM_BT").is_ok() {
+                    i.threads[me].wait = format!("site {site} lock {lock:#x}");
+                    i.threads[me].bt = Some(std::backtrace::Backtrace::force_capture());
+                }
                 util::fnv(&mut i.trace_hash, &[(me as u8), site as u8, 0xFF]);
                 Self::pick_next(i, me, true);
                 if i.deadlock {
@@ -181,6 +234,18 @@ impl Scheduler for Baton {
             }
         }
     }
+}
+
+impl Scheduler for Baton {
+    fn block_until(&self, site: u32, pred: &dyn Fn() -> bool) {
+        self.block_until_on(site, 0, pred)
+    }
+    fn block_until_on(&self, site: u32, lock: usize, pred: &dyn Fn() -> bool) {
+        self.block_on(site, lock, pred, None)
+    }
+    fn block_until_shared(&self, site: u32, lock: usize, free: &dyn Fn() -> bool, shared_now: &dyn Fn() -> bool) {
+        self.block_on(site, lock, free, Some(shared_now))
+    }
     fn alloc_thread(&self) -> usize {
         if me() == usize::MAX {
             return usize::MAX;
@@ -188,7 +253,7 @@ impl Scheduler for Baton {
         let mut g = self.m.lock().unwrap_or_else(|e| e.into_inner());
         match g.as_mut() {
             Some(i) if i.active => {
-                i.threads.push(T { st: St::Runnable, failed_epoch: u64::MAX, is_client: false });
+                i.threads.push(T { st: St::Runnable, failed_epoch: u64::MAX, is_client: false, wait: String::new(), bt: None });
                 i.call_steps.push(0);
                 i.threads.len() - 1
             }
@@ -227,7 +292,7 @@ impl Baton {
         let vid = {
             let mut g = self.m.lock().unwrap();
             let i = g.as_mut().unwrap();
-            i.threads.push(T { st: St::Runnable, failed_epoch: u64::MAX, is_client: true });
+            i.threads.push(T { st: St::Runnable, failed_epoch: u64::MAX, is_client: true, wait: String::new(), bt: None });
             i.call_steps.push(0);
             i.threads.len() - 1
         };
@@ -283,6 +348,13 @@ pub struct ThreadReplay {
     /// tables have a PRIMARY KEY, so every insert and delete also works on an index tree
     #[serde(default)]
     pub indexed: bool,
+    /// wide rows: a padding TEXT column of this many bytes (0 = none), so that a table spans several
+    /// leaves and inserts split and rebalance them while other clients scan
+    #[serde(default)]
+    pub pad: u32,
+    /// rows every table holds before the clients start (ids 1..=preload)
+    #[serde(default)]
+    pub preload: u32,
     /// table each client's i-th SELECT COUNT(*) reads (readers and writers meet on the same tables)
     #[serde(default)]
     pub read_tables: Vec<Vec<u32>>,
@@ -323,6 +395,13 @@ pub fn gen_case(verif_seed: u64, idx: u64) -> ThreadReplay {
         })
         .collect();
     let indexed = rng.chance(40);
+    // a third of the runs: wide rows (about 8-9 per 4 KiB leaf), tables of one to three leaves before the
+    // clients start and up to ten inserts per client, so that leaves split during other clients' scans
+    let wide = rng.chance(33);
+    let (pad, preload) = if wide { (400, rng.range(5, 20) as u32) } else { (0, 0) };
+    let ops = if wide { rng.range(4, 10) as u32 } else { ops };
+    let read_tables: Vec<Vec<u32>> = if wide { (0..clients).map(|_| (0..ops).map(|_| rng.below(clients as u64) as u32).collect()).collect() } else { read_tables };
+    let deletes: Vec<Vec<Option<u32>>> = if wide { (0..clients).map(|_| vec![None; ops as usize]).collect() } else { deletes };
     ThreadReplay {
         property: "C14".into(),
         engine: "E4-threadsim".into(),
@@ -333,6 +412,8 @@ pub fn gen_case(verif_seed: u64, idx: u64) -> ThreadReplay {
         read_tables,
         deletes,
         indexed,
+        pad,
+        preload,
         shared_table,
         sessions: rng.chance(35),
         switch_pct: *rng.pick(&[10u64, 30, 50, 80]),
@@ -360,7 +441,7 @@ pub fn run_case(case: &ThreadReplay, idx: u64) -> RunResult {
         let mut g = baton.m.lock().unwrap();
         *g = Some(Inner {
             active: true,
-            threads: vec![T { st: St::Runnable, failed_epoch: u64::MAX, is_client: true }],
+            threads: vec![T { st: St::Runnable, failed_epoch: u64::MAX, is_client: true, wait: String::new(), bt: None }],
             current: 0,
             rng: Rng::new(case.seed ^ 0x5ced),
             epoch: 0,
@@ -380,6 +461,9 @@ pub fn run_case(case: &ThreadReplay, idx: u64) -> RunResult {
             trace_hash: 0xcbf29ce484222325,
             call_steps: vec![0],
             max_call_steps: 0,
+            waiting_writers: Default::default(),
+            readers_held_back: 0,
+            recursive_reads_ahead_of_writer: 0,
         });
     }
     ME.with(|m| m.set(0));
@@ -401,13 +485,20 @@ pub fn run_case(case: &ThreadReplay, idx: u64) -> RunResult {
     };
     let ntables = if case.shared_table { 1 } else { case.clients };
     for t in 0..ntables {
-        let o = eng.exec(&if case.indexed { format!("CREATE TABLE t{t} (id BIGINT, v INT, PRIMARY KEY (id))") } else { format!("CREATE TABLE t{t} (id BIGINT, v INT)") });
+        let padcol = if case.pad > 0 { ", pad TEXT" } else { "" };
+        let o = eng.exec(&if case.indexed { format!("CREATE TABLE t{t} (id BIGINT, v INT{padcol}, PRIMARY KEY (id))") } else { format!("CREATE TABLE t{t} (id BIGINT, v INT{padcol})") });
         if o.is_err() {
             viol = Some(Violation { oracle: "O-res".into(), event: 0, detail: format!("setup failed: {}", o.short()) });
         }
+        for r in 1..=case.preload {
+            let o = eng.exec(&format!("INSERT INTO t{t} VALUES ({r}, 0, '{}')", "p".repeat(case.pad as usize)));
+            if o.is_err() {
+                viol = Some(Violation { oracle: "O-res".into(), event: 0, detail: format!("setup failed: {}", o.short()) });
+            }
+        }
     }
     // one committed row before the clients start (part of the base count of t0)
-    let _ = eng.exec("INSERT INTO t0 VALUES (0, 0)");
+    let _ = eng.exec(&if case.pad > 0 { format!("INSERT INTO t0 VALUES (0, 0, '{}')", "p".repeat(case.pad as usize)) } else { "INSERT INTO t0 VALUES (0, 0)".to_string() });
     let seq = Arc::new(std::sync::atomic::AtomicU64::new(0));
     let logs: Vec<Arc<Mutex<ClientLog>>> = (0..case.clients).map(|_| Arc::new(Mutex::new(ClientLog::default()))).collect();
     let mut handles = vec![];
@@ -418,6 +509,7 @@ pub fn run_case(case: &ThreadReplay, idx: u64) -> RunResult {
             let seq = seq.clone();
             let b2 = baton.clone();
             let (ops, shared, sessions) = (case.ops, case.shared_table, case.sessions);
+            let padval = if case.pad > 0 { format!(", '{}'", "p".repeat(case.pad as usize)) } else { String::new() };
             let reads: Vec<u32> = case.read_tables.get(c as usize).cloned().unwrap_or_default();
             let dels: Vec<Option<u32>> = case.deletes.get(c as usize).cloned().unwrap_or_default();
             handles.push(baton.spawn_client(move || {
@@ -431,7 +523,7 @@ pub fn run_case(case: &ThreadReplay, idx: u64) -> RunResult {
                         }
                         let rt = if shared { 0 } else { reads.get(i as usize).copied().unwrap_or(table) };
                         let sql = match kind {
-                            0 => format!("INSERT INTO t{table} VALUES ({}, {i})", (c + 1) * 1000 + i),
+                            0 => format!("INSERT INTO t{table} VALUES ({}, {i}{padval})", (c + 1) * 1000 + i),
                             1 => match dels.get(i as usize).copied().flatten() {
                                 Some(j) => format!("DELETE FROM t{table} WHERE id = {}", (c + 1) * 1000 + j),
                                 None => continue,
@@ -468,11 +560,11 @@ pub fn run_case(case: &ThreadReplay, idx: u64) -> RunResult {
         baton.block_until(99, &|| vids.iter().all(|v| b3.finished(*v)));
     }
     // leave the scheduler: from here on threads run freely (teardown is not part of the schedule)
-    let (deadlock, steps, choices, pairs, switches, failed, thash, max_call) = {
+    let (deadlock, steps, choices, pairs, switches, failed, thash, max_call, held_back, rec_ahead) = {
         let mut g = baton.m.lock().unwrap();
         let i = g.as_mut().unwrap();
         i.active = false;
-        (i.deadlock, i.steps, i.choices.clone(), i.site_pairs.len(), i.switches, i.failed_polls, i.trace_hash, i.max_call_steps)
+        (i.deadlock, i.steps, i.choices.clone(), i.site_pairs.len(), i.switches, i.failed_polls, i.trace_hash, i.max_call_steps, i.readers_held_back, i.recursive_reads_ahead_of_writer)
     };
     baton.cv.notify_all();
     sched::uninstall();
@@ -481,6 +573,8 @@ pub fn run_case(case: &ThreadReplay, idx: u64) -> RunResult {
     counters.insert("context_switches".into(), switches);
     counters.insert(if case.pct_change_points.is_empty() { "schedules_random".into() } else { format!("schedules_pct_depth_{}", case.pct_change_points.len() + 1) }, 1);
     counters.insert("failed_polls".into(), failed);
+    counters.insert("readers_queued_behind_a_waiting_writer".into(), held_back);
+    counters.insert("recursive_reads_ahead_of_a_waiting_writer".into(), rec_ahead);
     counters.insert("distinct_ordered_site_pairs".into(), pairs as u64);
     counters.insert("max_steps_of_one_call".into(), max_call);
     counters.insert(format!("clients_{}", case.clients), 1);
@@ -490,6 +584,9 @@ pub fn run_case(case: &ThreadReplay, idx: u64) -> RunResult {
     }
     if case.shared_table {
         counters.insert("runs_with_shared_table".into(), 1);
+    }
+    if case.pad > 0 {
+        counters.insert("runs_with_multi_leaf_tables".into(), 1);
     }
     let panics = util::take_panics();
     if deadlock {
@@ -535,7 +632,7 @@ pub fn run_case(case: &ThreadReplay, idx: u64) -> RunResult {
                     let n: u64 = r[0][0].parse().unwrap_or(0);
                     let table = s.rsplit(' ').next().unwrap().to_string();
                     // inserts into this table acknowledged before the call started ... invoked before it returned
-                    let base = if table == "t0" { 1 } else { 0 };
+                    let base = case.preload as u64 + if table == "t0" { 1 } else { 0 };
                     // at least: inserts acknowledged before it started, minus deletes invoked before it returned;
                     // at most: inserts invoked before it returned, minus deletes acknowledged before it started
                     let ins_acked = all.iter().filter(|x| x.2.starts_with(&format!("INSERT INTO {table} ")) && x.1 < *a && !x.3.is_err()).count() as u64;
@@ -556,7 +653,8 @@ pub fn run_case(case: &ThreadReplay, idx: u64) -> RunResult {
         if viol.is_none() {
             for t in 0..ntables {
                 let committed = |x: &&(u64, u64, String, Out, u32)| !case.sessions || all.iter().any(|y| y.4 == x.4 && y.2 == "COMMIT" && !y.3.is_err());
-                let want = (if t == 0 { 1 } else { 0 })
+                let want = case.preload as usize
+                    + (if t == 0 { 1 } else { 0 })
                     + all.iter().filter(|x| x.2.starts_with(&format!("INSERT INTO t{t} ")) && !x.3.is_err()).filter(committed).count()
                     - all.iter().filter(|x| x.2.starts_with(&format!("DELETE FROM t{t} ")) && !x.3.is_err()).filter(committed).count();
                 match eng.exec(&format!("SELECT COUNT(*) FROM t{t}")) {
